@@ -279,6 +279,33 @@ func c05TotalProbe(sc *zipScratch) string {
 	return fmt.Sprintf("a tree of %d bytes was accepted by CheckFiles, Create and CheckZip", int64(modzip.MaxZipFile)+50)
 }
 
+// c05LicenseProbe: a LICENSE outside the root larger than MaxLICENSE, with real (lazily produced,
+// highly compressible) data: only the root LICENSE is limited, so CheckFiles, Create, CheckZip
+// and Unzip must all accept it.
+func c05LicenseProbe(sc *zipScratch) string {
+	m := module.Version{Path: "example.com/m", Version: "v1.0.0"}
+	files := []modzip.File{
+		c05ZeroFile{"go.mod", 21, []byte("module example.com/m\n")},
+		c05ZeroFile{"third_party/LICENSE", modzip.MaxLICENSE + 1, nil},
+	}
+	if _, err := modzip.CheckFiles(files); err != nil {
+		return "" // the list oracles of C17 speak about CheckFiles
+	}
+	var buf bytes.Buffer
+	if err := modzip.Create(&buf, m, files); err != nil {
+		return fmt.Sprintf("third_party/LICENSE of %d bytes: CheckFiles reports no error but Create fails: %v", int64(modzip.MaxLICENSE)+1, err)
+	}
+	cf, zerr, _ := zipImplCheckZip(sc, m, buf.Bytes())
+	if zerr != nil {
+		return fmt.Sprintf("third_party/LICENSE of %d bytes: Create succeeded, CheckZip rejects the archive: %v %v", int64(modzip.MaxLICENSE)+1, zerr, cf.Invalid)
+	}
+	run := zipImplUnzip(sc, 0, m, buf.Bytes())
+	if run.Err != nil {
+		return fmt.Sprintf("third_party/LICENSE of %d bytes: Create and CheckZip succeeded, Unzip fails: %v", int64(modzip.MaxLICENSE)+1, run.Err)
+	}
+	return ""
+}
+
 func runC05(c *hx.Ctx) {
 	r := c.Rng
 	sc := newZipScratch(c.Out)
@@ -289,9 +316,14 @@ func runC05(c *hx.Ctx) {
 		c.Count("zipsize-probe")
 		msg = c05TotalProbe(sc)
 		c.Check("create-then-checkzip-ok", msg == "", "", zipIn{Op: "totalsize"}, msg)
+		msg = c05LicenseProbe(sc)
+		c.Check("create-then-checkzip-ok", msg == "", "", zipIn{Op: "license"}, msg)
 	}
 	for _, files := range zipCorpusLists() {
 		c05List(c, sc, module.Version{Path: "example.com/m", Version: "v1.2.3"}, files, "corpus")
+	}
+	for _, m := range zipCorpusModules() {
+		c05List(c, sc, m, zcList("go.mod", "quote.go", "a/b.go"), "corpus-module")
 	}
 	for i := 0; i < c.N(3500); i++ {
 		m := gen.ZipModuleVersion(r)
@@ -350,6 +382,10 @@ func replayC05(raw json.RawMessage) (bool, string) {
 		return false, err.Error()
 	}
 	sc := zipReplayScratch("C05")
+	if in.Op == "license" {
+		msg := c05LicenseProbe(sc)
+		return msg == "", msg
+	}
 	if in.Op == "totalsize" {
 		msg := c05TotalProbe(sc)
 		return msg == "", msg
